@@ -27,7 +27,16 @@ RULE = ('cases = rule graphs over <= 6 names, bodies from the expression generat
         'name, unparseable rule; one or two such changes, mtimes advancing) and the validator runs again with that same '
         'enforcer: its verdict must be the one for the CURRENT file (fails = non-zero status or, for a deleted file, dying of '
         'an OSError); histories whose first contact found the file absent are generated but not judged (the unchanged '
-        'validator keeps answering "not found"). Non-trivial = the graph has at least one reference; '
+        'validator keeps answering "not found"). D = graphs in which some names are registered defaults with a deprecated '
+        'predecessor (renamed or same-name; enforce_new_defaults on and off; equal and differing check strings; with and '
+        'without an operator override of the new name / of the old name, incl. the alias rule:<new name>; the old name '
+        'sometimes still registered), the references of the graph (defined, undefined, cycle-closing, under not/and/or) '
+        'sitting in the new default, in the deprecated default or in both: check_rules(), raise_on_violation, the validator '
+        'and the bounded-progress clause are judged against the graph of the rules IN EFFECT by the documented override '
+        'table (new-name override, else old-name override unless it is the alias, else the new default OR-ed with the '
+        'deprecated default iff the flag is off and the strings differ); bad references in a default that is not in effect '
+        'must not be reported; an old-name override spelled like the deprecated default is not generated. '
+        'Non-trivial = the graph has at least one reference; '
         'distinct = distinct rule set.')
 ASSUMPTIONS = ['"evaluating any rule terminates" is restated as bounded progress: completes under recursion limit 400 '
                'for graphs of <= 6 rules (a watchdog firing would be inconclusive, not a violation)',
@@ -39,12 +48,17 @@ LEVEL_NOTE = 'trusted: the independent graph analysis (own DFS over all rule: oc
 PLAN = {'quick': dict(shards=4, wall=120), 'thorough': dict(shards=16, wall=400)}
 MIN = {'evaluations': 500, 'graphs_clean': 100, 'graphs_undefined': 50, 'graphs_cyclic': 50, 'validator_runs': 50,
        'clean_rule_evaluations': 1000, 'graphs_reference_under_not': 50, 'late_registration_verdicts': 200,
-       'living_verdicts_judged': 100, 'living_file_deleted': 20, 'living_bad_to_clean': 10, 'living_clean_to_bad': 8}
+       'living_verdicts_judged': 100, 'living_file_deleted': 20, 'living_bad_to_clean': 10, 'living_clean_to_bad': 8,
+       'deprecated_default_verdicts': 400, 'deprecated_default_or_merged': 150,
+       'deprecated_default_bad_reference_only_in_or_merged_default': 50,
+       'deprecated_default_bad_reference_in_default_not_in_effect': 40, 'deprecated_default_validator_runs': 60,
+       'deprecated_default_clean_rule_evaluations': 2000}
 ANCHORS = ['oslo_policy.policy:Enforcer.check_rules', 'oslo_policy.policy:Enforcer._undefined_check',
            'oslo_policy.policy:Enforcer._cycle_check', 'oslo_policy.generator:_validate_policy']
 REQUIRED_ANCHORS = ['oslo_policy.policy:Enforcer.check_rules']
 N = {'quick': (10000, 600), 'thorough': (300000, 10000)}
 N_LIVING = {'quick': 400, 'thorough': 6000}
+N_DEPRECATED = {'quick': (1500, 300), 'thorough': (30000, 6000)}
 ROLES = ['a', 'b']
 SUBSETS = [[], ['a'], ['b'], ['a', 'b']]
 
@@ -530,6 +544,246 @@ def gen_living(rnd):
                 first=rnd.choice(['load_rules', 'load_rules', 'enforce', 'validate']))
 
 
+# ---------------------------------------------------------------------------
+# stratum D: graphs in which some names are REGISTERED DEFAULTS WITH A DEPRECATED PREDECESSOR.  The rule that is in effect
+# for such a name follows the documented override table (the one C11 monitors): an operator override of the new name; else
+# an operator override of the old name, unless that override is just the alias `rule:<new name>`; else the new default,
+# OR-ed with the deprecated default iff enforce_new_defaults is off and the two check strings differ.  The reference graph
+# that validation has to judge is the graph of these EFFECTIVE rules, wherever the references came from.
+PLAIN_TEXTS = ['role:a', 'role:b', '@']
+
+
+def gen_deprecated(rnd, mode):
+    g = gen_graph(rnd)
+    names = sorted(g['rules'])
+    leaves = PLAIN_TEXTS + ['rule:' + n for n in names] * 2 + (['rule:ghost'] if rnd.random() < 0.3 else [])
+    plain = lambda: ('text', rnd.choice(PLAIN_TEXTS))
+    other = lambda: gen_body(rnd, rnd.randint(0, 2), leaves) if rnd.random() < 0.5 else plain()
+    chosen = [n for n in names if rnd.random() < 0.5] or [rnd.choice(names)]
+    deps, plain_file, plain_registered = {}, {}, {}
+    for nm in names:
+        body = g['rules'][nm]
+        if nm not in chosen:
+            (plain_file if rnd.random() < 0.5 else plain_registered)[nm] = body
+            continue
+        where = rnd.choice(['new', 'new', 'old', 'old', 'both', 'same'])
+        if where == 'new':
+            new, old = body, plain()
+        elif where == 'old':
+            new, old = plain(), body
+        elif where == 'both':
+            new, old = body, gen_body(rnd, rnd.randint(0, 2), leaves)
+        else:
+            new = old = body
+        renamed = rnd.random() < 0.5
+        d = dict(where=where, new=new, old=old, oldname=('o_' + nm) if renamed else nm)
+        if rnd.random() < 0.2:
+            d['new_override'] = other()                  # the operator's file defines the new name
+        if renamed:
+            r = rnd.random()
+            if r < 0.2:
+                ov = other()
+                # an old-name override spelled like the deprecated default is left open by the table; `rule:<new>` is the alias
+                if text_of(ov) not in (text_of(old), 'rule:' + nm):
+                    d['old_override'] = ov
+            elif r < 0.3:
+                d['old_override'] = ('ref', nm)          # the alias a generated sample file contains
+            if rnd.random() < 0.3 or (mode == 'validator' and 'old_override' in d):
+                # the old name is still a registered policy of its own (for the validator: a name in the file that the
+                # service does not register is a fault of its own, which is not the subject here)
+                d['old_registered'] = plain()
+        deps[nm] = d
+    return dict(deprecated=True, mode=mode, shape=g['shape'], flag=rnd.random() < 0.4, deps=deps, plain_file=plain_file,
+                plain_registered=plain_registered, main_exists=rnd.random() < 0.8, fmt=rnd.choice(['yaml', 'json']))
+
+
+def deprecated_effective(case):
+    """(what the operator's file says, the rules in effect, did a deprecated default contribute?) - or None when the table
+    leaves the case open (old-name override spelled exactly like the deprecated default)."""
+    flag = bool(case['flag'])
+    deps = {nm: dict(d, new=fromjson(d['new']), old=fromjson(d['old'])) for nm, d in case['deps'].items()}
+    file = {nm: fromjson(a) for nm, a in case['plain_file'].items()}
+    for nm, d in deps.items():
+        if d.get('new_override') is not None:
+            file[nm] = fromjson(d['new_override'])
+        if d.get('old_override') is not None and d['oldname'] != nm:
+            file[d['oldname']] = fromjson(d['old_override'])
+    eff = dict(file)
+    for nm, a in case['plain_registered'].items():
+        eff.setdefault(nm, fromjson(a))
+    merged = []
+    for nm, d in sorted(deps.items()):
+        old = d['oldname']
+        if d.get('old_registered') is not None and old != nm:
+            eff.setdefault(old, fromjson(d['old_registered']))
+        if nm in file:
+            continue                                                        # new-name override governs
+        ov = file.get(old) if old != nm else None
+        if ov is not None and text_of(ov) != 'rule:' + nm:
+            if text_of(ov) == text_of(d['old']):
+                return None
+            eff[nm] = ov                                                    # old-name override governs
+        elif not flag and text_of(d['new']) != text_of(d['old']):
+            eff[nm] = ('or', [d['new'], d['old']])                          # new default OR-ed with the deprecated default
+            merged.append(nm)
+        else:
+            eff[nm] = d['new']
+    return file, eff, merged
+
+
+def check_deprecated(ctx, case):
+    from oslo_config import cfg
+    from oslo_policy import opts, policy
+    table = deprecated_effective(case)
+    if table is None:
+        ctx.unconstrained('old-override-equals-deprecated-default')
+        return
+    file, eff, merged = table
+    flag = bool(case['flag'])
+    deps = case['deps']
+    undefined, cyclic, under_not = analyse(eff)
+    problem = undefined or cyclic
+    file_texts = {k: text_of(v) for k, v in file.items()}
+    eff_texts = {k: text_of(v) for k, v in eff.items()}
+    validator = case['mode'] == 'validator'
+
+    def defaults():
+        out = []
+        for nm, a in sorted(case['plain_registered'].items()):
+            out.append(policy.RuleDefault(nm, text_of(fromjson(a))))
+        if validator:
+            for nm in sorted(case['plain_file']):
+                out.append(policy.RuleDefault(nm, 'role:a'))
+        for nm, d in sorted(deps.items()):
+            dep = policy.DeprecatedRule(d['oldname'], text_of(fromjson(d['old'])), deprecated_reason='changed',
+                                        deprecated_since='1.0')
+            out.append(policy.RuleDefault(nm, text_of(fromjson(d['new'])), deprecated_rule=dep))
+            if d.get('old_registered') is not None and d['oldname'] != nm:
+                out.append(policy.RuleDefault(d['oldname'], text_of(fromjson(d['old_registered']))))
+        return out
+
+    # where the decisive references sit
+    with_merged_only = False
+    if problem and merged:
+        # would the set be clean if the merged defaults were opaque?  then the only bad references sit in merged defaults
+        opaque = dict(eff)
+        for nm in merged:
+            opaque[nm] = ('text', 'role:a')
+        u2, c2, _ = analyse(opaque)
+        with_merged_only = not (u2 or c2)
+    dormant = False
+    if not problem:
+        # would the set be bad if every deprecated / overridden default were in effect?  then bad references lie dormant
+        naive = dict(eff)
+        for nm, d in deps.items():
+            naive[nm] = ('or', [fromjson(d['new']), fromjson(d['old'])])
+        u2, c2, _ = analyse(naive)
+        dormant = u2 or c2
+    detail = {'file': file_texts, 'enforce_new_defaults': flag, 'rules_in_effect': eff_texts,
+              'registered_with_deprecated_predecessor': {
+                  nm: {'default': text_of(fromjson(d['new'])), 'deprecated_name': d['oldname'],
+                       'deprecated_default': text_of(fromjson(d['old']))} for nm, d in deps.items()},
+              'independent_analysis': {'undefined': undefined, 'reaches_cycle': cyclic}}
+    ctx.case(['deprecated', case['mode'], flag, file_texts, detail['registered_with_deprecated_predecessor'],
+              {k: text_of(fromjson(v)) for k, v in case['plain_registered'].items()}],
+             nontrivial=any(all_refs(a) for a in eff.values()), stratum='D')
+    ctx.observe('deprecated_shapes', case['shape'])
+
+    def counted():
+        ctx.count('deprecated_default_verdicts')
+        ctx.count('deprecated_default_' + ('undefined' if undefined else 'cyclic' if cyclic else 'clean'))
+        if merged:
+            ctx.count('deprecated_default_or_merged')
+        if with_merged_only:
+            ctx.count('deprecated_default_bad_reference_only_in_or_merged_default')
+        if dormant:
+            ctx.count('deprecated_default_bad_reference_in_default_not_in_effect')
+        for nm, d in deps.items():
+            ov = d.get('old_override')
+            ctx.observe('deprecated_rows', '%s/%s/flag=%s/new_ov=%s/old_ov=%s' % (
+                d['where'], 'renamed' if d['oldname'] != nm else 'same-name', flag, d.get('new_override') is not None,
+                'none' if ov is None else 'alias' if text_of(fromjson(ov)) == 'rule:' + nm else 'arbitrary'))
+
+    if validator:
+        tree = files.Tree(dirs=())
+        conf = cfg.CONF
+        try:
+            conf([], default_config_files=[], default_config_dirs=[])
+            opts._register(conf)
+            tree.write(os.path.basename(tree.main), file_texts, case.get('fmt', 'yaml'))
+            conf.set_override('policy_file', tree.main, group='oslo_policy')
+            conf.set_override('policy_dirs', [], group='oslo_policy')
+            conf.set_override('enforce_new_defaults', flag, group='oslo_policy')
+            enf = policy.Enforcer(conf)
+            enf.register_defaults(defaults())
+            got, _, output = _run_validator(enf)
+        finally:
+            logging.disable(logging.CRITICAL)
+            conf.clear_override('policy_file', group='oslo_policy')
+            conf.clear_override('policy_dirs', group='oslo_policy')
+            conf.clear_override('enforce_new_defaults', group='oslo_policy')
+            tree.cleanup()
+        counted()
+        ctx.count('deprecated_default_validator_runs')
+        ctx.observe('deprecated_validator_outcomes', '%s->%s' % ('bad' if problem else 'clean', got))
+        want = 1 if problem else 0
+        if got != want:
+            key = ('validator-raises' if isinstance(got, str) else
+                   'validator-rejects-clean-file' if want == 0 else
+                   'validator-misses-bad-reference')
+            ctx.violation('deprecated-default-' + key, case, dict(detail, exit_status=got, expected=want, output=output[:300]))
+        return
+
+    tree = files.Tree(dirs=())
+    try:
+        if file_texts or case.get('main_exists', True):
+            tree.write('policy.yaml', file_texts, case.get('fmt', 'json'))
+        enf = policy.Enforcer(tree.conf(policy_dirs=[], enforce_new_defaults=flag))
+        try:
+            enf.register_defaults(defaults())
+            enf.load_rules()
+            got = enf.check_rules()
+        except Exception as e:
+            ctx.violation('deprecated-default-check_rules-raises', case, dict(detail, observed=type(e).__name__))
+            return
+        counted()
+        if bool(got) != (not problem):
+            ctx.violation('deprecated-default-' + classify(undefined, cyclic, under_not, bool(got), not problem), case,
+                          dict(detail, check_rules=got))
+            return
+        try:
+            enf.check_rules(raise_on_violation=True)
+            raised = False
+        except policy.InvalidDefinitionError:
+            raised = True
+        except Exception as e:
+            raised = 'EXC:' + type(e).__name__
+        if raised != problem:
+            ctx.violation('deprecated-default-raise_on_violation-disagrees', case, dict(detail, raised=raised, problem=problem))
+            return
+        if not problem:
+            # bounded progress: every rule in effect of a set reported clean evaluates under a low recursion ceiling
+            old = sys.getrecursionlimit()
+            sys.setrecursionlimit(_depth() + 400)
+            try:
+                for n in sorted(eff):
+                    for roles in SUBSETS:
+                        try:
+                            enf.enforce(n, {}, {'roles': list(roles)})
+                            ctx.count('deprecated_default_clean_rule_evaluations')
+                        except RecursionError:
+                            ctx.violation('deprecated-default-clean-graph-does-not-terminate', case, dict(detail, enforced=n))
+                            return
+                        except Exception as e:
+                            ctx.violation('deprecated-default-clean-graph-evaluation-raises', case,
+                                          dict(detail, enforced=n, observed=type(e).__name__))
+                            return
+            finally:
+                sys.setrecursionlimit(old)
+    finally:
+        tree.cleanup()
+
+
 def run(ctx):
     ng, nw = N[ctx.tier]
     for i in range(ng // ctx.nshards + 1):
@@ -569,11 +823,27 @@ def run(ctx):
         if i % 40 == 0:
             ctx.sample({'first': case['first'], 'versions': [expect_version(case['defaults'], v)[0] or 'absent'
                                                               for v in case['versions']]}, 'L')
+    # stratum D has its own random stream: what it draws does not depend on how far the strata above got
+    rnd = ctx.sub_rnd('deprecated', ctx.tier, ctx.shard, ctx.nshards)
+    nd, ndw = N_DEPRECATED[ctx.tier]
+    for i in range((nd + ndw) // ctx.nshards + 1):
+        if (i & 0xf) == 0 and ctx.expired():
+            break
+        case = gen_deprecated(rnd, 'validator' if i % 6 == 5 else 'check_rules')      # 5 : 1, like nd : ndw
+        check_deprecated(ctx, case)
+        if i % 100 == 0:
+            t = deprecated_effective(case)
+            if t:
+                ctx.sample({'mode': case['mode'], 'enforce_new_defaults': case['flag'],
+                            'file': {k: text_of(v) for k, v in t[0].items()},
+                            'in_effect': {k: text_of(v) for k, v in t[1].items()}}, 'D')
     ctx.stratum('random', exhaustive=False)
 
 
 def replay(ctx, case):
-    if case.get('validator_living'):
+    if case.get('deprecated'):
+        check_deprecated(ctx, case)
+    elif case.get('validator_living'):
         check_validator_living(ctx, case)
     elif case.get('late_registration'):
         check_late_registration(ctx, case)
